@@ -6,12 +6,16 @@
 package main
 
 import (
+	"bytes"
+	"context"
 	"encoding/json"
 	"flag"
 	"fmt"
 	"os"
+	"os/exec"
 	"sort"
 	"strings"
+	"sync"
 	"time"
 
 	"verifharness/internal/hx"
@@ -71,7 +75,52 @@ func historyCase(prop string, s *Script, origin string) (hx.Case, *environment) 
 	return hx.Case{Coq: coq, Replay: Case{Script: s}, Nontrivial: nontrivial, Tags: tl, Origin: origin}, env
 }
 
+// childResult is what a child process reports about one history.
+type childResult struct {
+	Coq        string   `json:"coq"`
+	Tags       []string `json:"tags"`
+	Nontrivial bool     `json:"nontrivial"`
+}
+
+// runChild runs one history in a child process (a panic in a goroutine of the
+// code under test, or a hang, must not take the harness down; the data
+// directory is process-global state). It panics with the child's output when
+// the child fails, which hx.Writer.Guard records as a failing input.
+func runChild(prop string, s *Script) childResult {
+	in, _ := json.Marshal(s)
+	ctx, cancel := context.WithTimeout(context.Background(), 120*time.Second)
+	defer cancel()
+	cmd := exec.CommandContext(ctx, os.Args[0], "-child", prop)
+	cmd.Stdin = bytes.NewReader(in)
+	var out, errb bytes.Buffer
+	cmd.Stdout = &out
+	cmd.Stderr = &errb
+	err := cmd.Run()
+	var r childResult
+	if err != nil || json.Unmarshal(out.Bytes(), &r) != nil || r.Coq == "" {
+		msg := errb.String()
+		if len(msg) > 1200 {
+			msg = msg[:1200]
+		}
+		panic(fmt.Sprintf("the process running the history died: %v\n%s", err, msg))
+	}
+	return r
+}
+
+func childMain(prop string) {
+	var s Script
+	if err := json.NewDecoder(os.Stdin).Decode(&s); err != nil {
+		panic(err)
+	}
+	c, _ := historyCase(prop, &s, "")
+	json.NewEncoder(os.Stdout).Encode(childResult{Coq: c.Coq, Tags: c.Tags, Nontrivial: c.Nontrivial})
+}
+
 func main() {
+	if len(os.Args) > 2 && os.Args[1] == "-child" {
+		childMain(os.Args[2])
+		return
+	}
 	scriptFile := flag.String("script", "", "run one script file, dump the journal and exit")
 	coqOut := flag.String("coqout", "", "with -script: write the history as a Coq file")
 	prop := flag.String("prop", "C29", "C11 or C29")
@@ -110,22 +159,56 @@ func main() {
 	if *prop == "C11" {
 		caseType = "c11case"
 	}
-	perShard := 6
+	perShard := 8
 	w := hx.NewWriter(cfg, header, caseType, failFn, perShard)
 	if *prop == "C11" {
 		w.Rule = "a case is either one call of a safety predicate of safety.go (oneEndpointEmptiedRoot on (ancestor, alpha, beta); containsRootDeletion/containsRootTypeChange on a change list; filteredPathsAreSubset on two path lists) with the real result, or one recorded history (all endpoint method entries/exits, Connect calls, command calls/returns, observations of the persisted files and of Manager.List) of a real session over two local roots in which a root is deleted, replaced by a file or emptied at a random point; distinct = distinct Coq terms; non-trivial = predicate case whose result is true, or history containing an external edit"
 	} else {
 		w.Rule = "a case is one recorded history of the real synchronization.Manager over two local roots with instrumented endpoints: a random interleaving of Create/Pause/Resume/Flush(wait or not)/Reset/Terminate/Shutdown+NewManager (some commands concurrent) and external edits; every endpoint method entry/exit, Connect, command call/return and the decoded persisted files after each step are events; distinct = distinct Coq terms; non-trivial = contains a Pause, an external edit or a Transition"
 	}
-	addHistory := func(s *Script, origin string) {
-		if w.Aborted {
-			return
+	// histories run in child processes, a few at a time; the cases are added in
+	// the order of the scripts
+	type pending struct {
+		s      *Script
+		origin string
+	}
+	var queue []pending
+	addHistory := func(s *Script, origin string) { queue = append(queue, pending{s, origin}) }
+	flush := func() {
+		const workers = 3
+		results := make([]*childResult, len(queue))
+		fails := make([]string, len(queue))
+		var wg sync.WaitGroup
+		sem := make(chan struct{}, workers)
+		for i := range queue {
+			wg.Add(1)
+			go func(i int) {
+				defer wg.Done()
+				sem <- struct{}{}
+				defer func() { <-sem }()
+				defer func() {
+					if r := recover(); r != nil {
+						fails[i] = fmt.Sprint(r)
+					}
+				}()
+				r := runChild(*prop, queue[i].s)
+				results[i] = &r
+			}(i)
 		}
-		var c hx.Case
-		ok := w.Guard(Case{Script: s}, 60*time.Second, func() { c, _ = historyCase(*prop, s, origin) })
-		if ok {
-			w.Add(c)
+		wg.Wait()
+		for i, q := range queue {
+			if w.Aborted {
+				break
+			}
+			if results[i] == nil {
+				msg := fails[i]
+				w.Guard(Case{Script: q.s}, time.Second, func() { panic(msg) })
+				continue
+			}
+			w.Add(hx.Case{Coq: results[i].Coq, Replay: Case{Script: q.s}, Nontrivial: results[i].Nontrivial,
+				Tags: results[i].Tags, Origin: q.origin})
 		}
+		queue = nil
 	}
 	if cfg.Replay != "" {
 		b, err := os.ReadFile(cfg.Replay)
@@ -140,6 +223,7 @@ func main() {
 		}
 		if wrapper.Case.Script != nil {
 			addHistory(wrapper.Case.Script, "replay")
+			flush()
 		} else if wrapper.Case.Pred != nil {
 			w.Add(predCase(*wrapper.Case.Pred, "replay"))
 		}
@@ -157,26 +241,28 @@ func main() {
 			w.Add(predCase(*c.Pred, "corpus"))
 		}
 	}
+	flush()
 	r := cfg.Rand
 	t0 := time.Now()
 	if *prop == "C11" {
-		nPred, nHist, budget := 1500, 36, 30*time.Second
+		nPred, nHist := 1200, 30
 		if cfg.Thorough() {
-			nPred, nHist, budget = 40000, 1200, 20*time.Minute
+			nPred, nHist = 40000, 1200
 		}
 		if *nOverride > 0 {
 			nHist = *nOverride
 		}
 		// histories first (their shards are the slow ones to evaluate)
-		for i := 0; i < nHist && time.Since(t0) < budget; i++ {
+		for i := 0; i < nHist; i++ {
 			addHistory(genC11(r), "random")
 		}
+		flush()
 		w.SetPerShard(300)
 		genPredCases(w, r, nPred)
 	} else {
-		nHist, budget := 48, 35*time.Second
+		nHist := 40
 		if cfg.Thorough() {
-			nHist, budget = 1500, 20*time.Minute
+			nHist = 1500
 		}
 		if *nOverride > 0 {
 			nHist = *nOverride
@@ -184,9 +270,10 @@ func main() {
 		for _, s := range fixedC29() {
 			addHistory(s, "scripted")
 		}
-		for i := 0; i < nHist && time.Since(t0) < budget; i++ {
+		for i := 0; i < nHist; i++ {
 			addHistory(genC29(r), "random")
 		}
+		flush()
 	}
 	w.Extra["traces_validated_against_impl"] = w.Total()
 	w.Close()
